@@ -17,7 +17,8 @@ RULE = ('Generated: transmission world with 1-3 absorbing molecules (constant or
         'optionally an extra tabulated species at exactly zero abundance, and a probe history for the '
         'per-component evaluation (fresh model / after model() / after model() on a sub-grid / after a '
         'cloud-pressure change).  Non-trivial = >=2 contributions, one of them with >=2 components, and a '
-        'transmittance strictly inside (0.01,0.99) somewhere; distinct by case hash.')
+        'transmittance strictly inside (0.01,0.99) somewhere; distinct by case hash.'
+        ' The contribution pool includes the H- (HydrogenIon) continuum with constant H and e- abundances.')
 ASSUMPTIONS = [
     'product rule compared in -log(transmittance) with rtol 1e-9 on layers that cannot trigger the cut-off; on '
     'layers whose optical depth exceeds 10 at every wavenumber only "product <= model <= e^-10" is asserted',
